@@ -315,9 +315,21 @@ fn replay_history(h: &[Value]) -> Outcome {
     for (obs, got) in roundtrip_failures(&sig, &r) {
         o.violate(Violation::new(&obs, sig_abs.clone(), got).note(format!("printed as {:?}", r.text)));
     }
+    // the verdict on a recorded history was TLC's; here we establish whether the real code still produces the
+    // recorded observations.  All of them reproduced => the rejected history is reproduced.
+    let mut all_same = true;
+    if let Some(p) = h.iter().find(|e| e["ev"] == "print") {
+        let same3 = r.direct == r.via_pragma && r.direct == r.via_program_text;
+        let now = util::opt_json(if same3 { r.direct.as_ref().map(sig_to_abs) } else { None });
+        all_same &= p["reparsed"] == now;
+    }
     for e in h.iter().filter(|e| e["ev"] == "call") {
         let real = run_call(&sig, arr(&h[0], "decls"), arr(e, "args"));
-        o.diverge(format!("recorded call {} -> ok={} now {}", e["args"], e["ok"], outcome_to_abs(&real)));
+        all_same &= e["ok"] == json!(real.is_ok());
+    }
+    if all_same && o.violations.is_empty() {
+        o.violate(Violation::new("history rejected by trace validation (reproduced)", Value::Null, json!(h.len()))
+            .note("the real code produces the same print / call observations that spec/trace/ExternTrace.tla rejected"));
     }
     o
 }
